@@ -27,10 +27,7 @@ KPRIMES = None
 def kprimes():
     global KPRIMES
     if KPRIMES is None:
-        src = open(C.REPO + "/src/systematic_constants.rs").read()
-        body = src[src.index("SYSTEMATIC_INDICES_AND_PARAMETERS") :]
-        body = body[body.index("= [") : body.index("];")]
-        KPRIMES = [int(m.group(1)) for m in re.finditer(r"\((\d+),\s*\d+,\s*\d+,\s*\d+,\s*\d+\)", body)]
+        KPRIMES = [r[0] for r in C.repo_table2()[0]]
     return KPRIMES
 
 
